@@ -15,7 +15,9 @@ DEFAULT_VARIANT = {"clamp": True, "gain_term": True, "lone_ramp_term": False}
 
 def sdiv(a, b):
     if b == 0:
-        return math.nan
+        if a != a or a == 0:
+            return math.nan
+        return math.copysign(math.inf, a) * (math.copysign(1.0, b))
     return a / b
 
 
@@ -26,6 +28,14 @@ def spow(x, y):
         return x**y
     except (OverflowError, ZeroDivisionError, ValueError):
         return math.nan
+
+
+def slog(x):
+    if x != x or x < 0:
+        return math.nan
+    if x == 0:
+        return -math.inf
+    return math.log(x)
 
 
 def sexp(x):
@@ -66,7 +76,7 @@ def origin_flow(o, l, state, T, variant, labels=None):
                     l["lam"]
                     * vlim
                     * l["rho_crit"]
-                    * spow(-l["a"] * math.log(ratio), 1.0 / l["a"])
+                    * spow(-l["a"] * slog(ratio), 1.0 / l["a"])
                 )
             lab.add("main:speed-limited" if qlim < supply else "main:demand-limited")
         else:
@@ -173,13 +183,13 @@ def ref_step(spec, state, variant=None):
                 V = min(V, lim)
             relax = T / tau * (V - v[i])
             conv = T / L * v[i] * (vu - v[i])
-            antic = eta * T / (tau * L) * (rdn - rho[i]) / (rho[i] + kappa)
+            antic = sdiv(eta * T / (tau * L) * (rdn - rho[i]), rho[i] + kappa)
             vn = v[i] + relax + conv - antic
             sc = (
                 abs(v[i])
                 + T / tau * (abs(V) + abs(v[i]))
                 + T / L * abs(v[i]) * (abs(vu) + abs(v[i]))
-                + abs(eta * T / (tau * L)) * (abs(rdn) + abs(rho[i])) / abs(rho[i] + kappa)
+                + sdiv(abs(eta * T / (tau * L)) * (abs(rdn) + abs(rho[i])), abs(rho[i] + kappa))
             )
             if (
                 i == 0
@@ -188,7 +198,7 @@ def ref_step(spec, state, variant=None):
                 and o_up["kind"] in S.RAMP_KINDS
                 and (ins or variant["lone_ramp_term"])
             ):
-                term = delta * T * qo[o_up["id"]] * v[0] / (L * lam * (rho[0] + kappa))
+                term = sdiv(delta * T * qo[o_up["id"]] * v[0], L * lam * (rho[0] + kappa))
                 vn -= term
                 sc += abs(term)
                 labels.add("merging-term")
@@ -197,7 +207,7 @@ def ref_step(spec, state, variant=None):
                 if len(outs_d) == 1:
                     dl = lam - outs_d[0]["lam"]
                     if dl > 0 or (dl < 0 and variant["gain_term"]):
-                        term = phi * T * dl * rho[-1] * v[-1] ** 2 / (L * lam * l["rho_crit"])
+                        term = phi * T * dl * rho[-1] * v[-1] * v[-1] / (L * lam * l["rho_crit"])
                         vn -= term
                         sc += abs(term)
                         labels.add("lane-drop-term" if dl > 0 else "lane-gain-term")
